@@ -856,6 +856,9 @@ impl ProtoMachine {
                 b.req = "revoke";
                 b.kind = "advance";
                 b.accepted_invalid_sig = a.accepted_invalid_sig;
+                if b.point_mismatch.is_none() {
+                    b.point_mismatch = a.point_mismatch.clone();
+                }
                 let mut notes = a.notes;
                 notes.extend(b.notes.drain(..));
                 b.notes = notes;
